@@ -484,4 +484,72 @@ Proof.
   apply IH; rewrite jacobi_step_rows; assumption.
 Qed.
 
+(* ---------- the library routine ---------- *)
+Notation jacobiF := (jacobi_prolongation F zero one add mul opp div ltb eqb small small2).
+Notation par_jacobiF := (par_jacobi_prolongation F zero one add mul opp div ltb eqb small small2).
+
+(* D_i : absolute row sum over the stored entries of row i (diagonal included);  omega D^-1 with 0 for D_i = 0 *)
+Definition abs_row_sum (A : csr F) (i : nat) : F := sumF (map (fun p => absf (snd p)) (nth i (csr_rows A) [])).
+Definition dinv (omega : F) (A : csr F) (i : nat) : F :=
+  if eqb (abs_row_sum A i) 0 then 0 else omega / abs_row_sum A i.
+Definition scaled (omega : F) (A : csr F) (i l : nat) : F := denCsr A i l * dinv omega A i.
+
+Lemma den_scaled omega A i l : denCsr (scale_rowsF omega A) i l = scaled omega A i l.
+Proof.
+  rewrite den_scale_rows, inv_sum_closed. unfold scaled, dinv, abs_row_sum. rewrite row_abs_sumf. reflexivity.
+Qed.
+
+Lemma smooth_den_ext_sa n sa sa' k : (forall i l, sa i l = sa' i l) ->
+  forall t i j, smooth_den n sa t k i j = smooth_den n sa' t k i j.
+Proof.
+  intros H. induction k as [|k IH]; intros t i j; simpl; [reflexivity|].
+  rewrite IH. apply smooth_den_ext. intros i' j'. f_equal. f_equal. f_equal.
+  apply sumf_map_ext. intros l _. rewrite H. reflexivity.
+Qed.
+
+Theorem den_jacobi_prolongation (A T : csr F) omega k i j :
+  (length (csr_rows A) <= length (csr_rows T))%nat ->
+  denCsr (jacobiF A T omega k) i j =
+  smooth_den (length (csr_rows T)) (scaled omega A) (denCsr T) k i j.
+Proof.
+  intros H. unfold jacobi_prolongation.
+  rewrite den_jacobi_iter by (rewrite scale_rows_length; exact H).
+  apply smooth_den_ext_sa. intros; apply den_scaled.
+Qed.
+
+Theorem den_jacobi_prolongation_exact (A T : csr F) omega k i j :
+  (length (csr_rows A) <= length (csr_rows T))%nat ->
+  no_underflow (length (csr_rows T)) (scaled omega A) (denCsr T) k ->
+  denCsr (jacobiF A T omega k) i j =
+  smooth_exact (length (csr_rows T)) (scaled omega A) (denCsr T) k i j.
+Proof. intros H Hn. rewrite den_jacobi_prolongation by exact H. apply smooth_den_exact. exact Hn. Qed.
+
+(* (I - S)^k T as an explicit matrix recursion *)
+Fixpoint mat_apply_k (n : nat) (M : nat -> nat -> F) (t : nat -> nat -> F) (k : nat) : nat -> nat -> F :=
+  match k with
+  | O => t
+  | S k' => mat_apply_k n M (fun i j => sumF (map (fun l => M i l * t l j) (seq 0 n))) k'
+  end.
+Definition I_minus (sa : nat -> nat -> F) (i l : nat) : F := (if i =? l then 1 else 0) - sa i l.
+
+Lemma smooth_exact_matrix n sa k : forall t t',
+  (forall i j, (i < n)%nat -> t i j = t' i j) ->
+  forall i j, (i < n)%nat -> smooth_exact n sa t k i j = mat_apply_k n (I_minus sa) t' k i j.
+Proof.
+  induction k as [|k IH]; intros t t' H i j Hi; simpl; [apply H; exact Hi|].
+  apply IH; [|exact Hi]. intros i' j' Hi'. rewrite exact_step_matrix by exact Hi'.
+  apply sumf_map_ext. intros l Hl. apply in_seq in Hl. unfold I_minus. rewrite H by lia. reflexivity.
+Qed.
+
+Theorem par_jacobi_eq sizes (A T : csr F) omega k :
+  fold_right Nat.add 0%nat sizes = length (csr_rows A) -> length (csr_rows A) = length (csr_rows T) ->
+  par_jacobiF sizes A T omega k = jacobiF A T omega k.
+Proof.
+  intros Hs Hl. unfold par_jacobi_prolongation, jacobi_prolongation.
+  rewrite par_scale_gather by exact Hs.
+  apply par_iter_eq.
+  - unfold csr_to_csr. cbn [csr_rows]. rewrite <- Hl. exact Hs.
+  - rewrite scale_rows_length. unfold csr_to_csr. cbn [csr_rows]. exact Hl.
+Qed.
+
 End ProlongProofs.
